@@ -55,12 +55,12 @@ structure Slot where
 deriving Repr, Inhabited
 
 inductive Rc where
-  | ok | oob | maxoff | policy | overflow | notaligned | overlap | notmapped
+  | ok | oob | maxoff | policy | overflow | notaligned | overlap | notmapped | range
 deriving Repr, DecidableEq, Inhabited
 
 def Rc.name : Rc → String
   | .ok => "ok" | .oob => "oob" | .maxoff => "maxoff" | .policy => "policy" | .overflow => "overflow"
-  | .notaligned => "notaligned" | .overlap => "overlap" | .notmapped => "notmapped"
+  | .notaligned => "notaligned" | .overlap => "overlap" | .notmapped => "notmapped" | .range => "range"
 
 /-- `EXF` (+ the file it wraps) -/
 structure St where
@@ -299,16 +299,20 @@ def probeMmap (st : St) (off : Nat) : Rc × Nat :=
   | some s => if s.len = 0 then (.notmapped, 0) else (.ok, s.len)
   | none => (.notmapped, 0)
 
-/-- a store through the pointer returned by `acquire_mmap` (what the allocator and the KV layer do) -/
-def mmapWrite (st : St) (slotOff rel : Nat) (d : Bytes) : St :=
+/-- a store through the pointer returned by `acquire_mmap` (what the allocator and the KV layer do):
+    the window must start at `slotOff`, be mapped, and contain `[rel, rel + |d|)` -/
+def mmapWrite (st : St) (slotOff rel : Nat) (d : Bytes) : Rc × St :=
   match st.slots.findIdx? (fun s => s.off == slotOff) with
   | some k =>
     match st.slots[k]? with
     | some s =>
-      let (s', file') := slotWrite st.psize st.file s rel d
-      { st with slots := st.slots.set k s', file := file' }
-    | none => st
-  | none => st
+      if s.len = 0 then (.notmapped, st)
+      else if rel + d.length ≤ s.len then
+        let (s', file') := slotWrite st.psize st.file s rel d
+        (.ok, { st with slots := st.slots.set k s', file := file' })
+      else (.range, st)
+    | none => (.notmapped, st)
+  | none => (.notmapped, st)
 
 /-! ## open / close -/
 
@@ -326,6 +330,40 @@ def openFile (st : St) (pol : Policy) (maxoff initial : Nat) (trunc : Bool) : Rc
 
 /-- `_exfile_close`: windows go away, the file stays -/
 def close (st : St) : St := { st with isOpen := false, slots := [] }
+
+/-! ## operations as data (what the driver runs and the theorems quantify over) -/
+
+inductive Op where
+  | write (off : Int) (d : Bytes)
+  | read (off : Int) (n : Nat)
+  | copy (off siz noff : Nat)
+  | truncate (size : Nat)
+  | ensure (size : Nat)
+  | addMmap (off maxlen : Nat) (priv : Bool)
+  | removeMmap (off : Nat)
+  | mmapWrite (slotOff rel : Nat) (d : Bytes)
+  | remapAll
+deriving Repr
+
+/-- one call on an open file: new state, return code, bytes returned (reads only) -/
+def exec (st : St) : Op → St × Rc × Bytes
+  | .write off d => let (rc, _, st') := write st off d; (st', rc, [])
+  | .read off n => let (rc, bs) := read st off n; (st, rc, bs)
+  | .copy off siz noff => let (rc, st') := copy st off siz noff; (st', rc, [])
+  | .truncate size => let (rc, st') := truncate st size; (st', rc, [])
+  | .ensure size => let (rc, st') := ensureSize st size; (st', rc, [])
+  | .addMmap off maxlen priv => let (rc, st') := addMmap st off maxlen priv; (st', rc, [])
+  | .removeMmap off => let (rc, st') := removeMmap st off; (st', rc, [])
+  | .mmapWrite so rel d => let (rc, st') := mmapWrite st so rel d; (st', rc, [])
+  | .remapAll => ({ st with slots := remapAll st.fsize st.slots }, .ok, [])
+
+/-- a whole history: final state and the list of results -/
+def run (st : St) : List Op → St × List (Rc × Bytes)
+  | [] => (st, [])
+  | op :: ops =>
+    let (st', rc, bs) := exec st op
+    let (st'', outs) := run st' ops
+    (st'', (rc, bs) :: outs)
 
 /-- the test data of the protocol: byte `i` is `(seed + i) % 251` -/
 def pattern (seed len : Nat) : Bytes := (List.range len).map fun i => (seed + i) % 251
